@@ -42,7 +42,8 @@ package prunner
 //@ pure RIwl(r *PipelineRunner) bool = forall p string :: all(r.waitListByPipeline[p], wlEntry, p) && distinctElems(r.waitListByPipeline[p])
 //@ pure RIids(r *PipelineRunner) bool = forall id uuid.UUID :: id in r.jobsByID ==> r.jobsByID[id] != nil && r.jobsByID[id].ID == id
 //@ pure RIsep(r *PipelineRunner) bool = forall p string, q string :: (base(r.jobsByPipeline[p]) != 0 ==> base(r.jobsByPipeline[p]) != base(r.waitListByPipeline[q])) && (p != q && base(r.jobsByPipeline[p]) != 0 ==> base(r.jobsByPipeline[p]) != base(r.jobsByPipeline[q])) && (p != q && base(r.waitListByPipeline[p]) != 0 ==> base(r.waitListByPipeline[p]) != base(r.waitListByPipeline[q]))
-//@ pure registered(j *PipelineJob, r *PipelineRunner) bool = (j.ID in r.jobsByID) ==> r.jobsByID[j.ID] == j
+//@ pure regWeak(j *PipelineJob, r *PipelineRunner) bool = (j.ID in r.jobsByID) ==> r.jobsByID[j.ID] == j
+//@ pure registered(j *PipelineJob, r *PipelineRunner) bool = (j.ID in r.jobsByID) && r.jobsByID[j.ID] == j
 //@ pure RIreg(r *PipelineRunner) bool = forall p string :: all(r.jobsByPipeline[p], registered, r)
 //@ pure RIwf(r *PipelineRunner) bool = forall p string :: wf(r.jobsByPipeline[p]) && wf(r.waitListByPipeline[p])
 //@ pure RIdist(r *PipelineRunner) bool = forall p string :: distinctElems(r.jobsByPipeline[p])
@@ -55,7 +56,9 @@ package prunner
 //@ pure RItime(r *PipelineRunner) bool = forall id uuid.UUID :: (id in r.jobsByID) && $accepted[r.jobsByID[id]] ==> timesOrdered(r.jobsByID[id])
 // once shutdown has begun no job waits on any wait list (Shutdown purges them, ScheduleAsync refuses)
 //@ pure RIgate(r *PipelineRunner) bool = r.isShuttingDown ==> forall p string :: len(r.waitListByPipeline[p]) == 0
-//@ pure RIx(r *PipelineRunner) bool = RIbase(r) && RIids(r) && RIwf(r) && RIjobs(r) && RIwl(r) && RIsep(r) && RIreg(r) && RIdist(r) && RItime(r)
+//@ pure pipelineIs(j *PipelineJob, p string) bool = j.Pipeline == p
+//@ pure RIpipe(r *PipelineRunner) bool = forall p string :: all(r.jobsByPipeline[p], pipelineIs, p)
+//@ pure RIx(r *PipelineRunner) bool = RIbase(r) && RIids(r) && RIwf(r) && RIjobs(r) && RIwl(r) && RIsep(r) && RIreg(r) && RIdist(r) && RItime(r) && RIpipe(r)
 //@ pure RI(r *PipelineRunner) bool = RIx(r) && RIgate(r)
 
 // ---------------------------------------------------------------------------------------
@@ -457,6 +460,7 @@ package prunner
 //@   ensures  [absent] old(all(jobs, idNeq, jobToRemove)) ==> res == jobs && same("mem(*PipelineJob)")
 //@   ensures  [removed] !old(all(jobs, idNeq, jobToRemove)) ==> len(res) == len(jobs) - 1 && exists m :: 0 <= m && m < len(jobs) && old(jobs[m]).ID == jobToRemove.ID && allIdx(res, swapRel, jobs, m)
 //@   ensures  [frame] sameOutside("mem(*PipelineJob)", jobs)
+//@   ensures  [C01.keepsOthers] forall k :: 0 <= k && k < old(len(jobs)) && old(jobs[k]).ID != jobToRemove.ID ==> exists k2 :: 0 <= k2 && k2 < len(res) && res[k2] == old(jobs[k])
 //@   modifies mem(*PipelineJob)
 //@   loop 1 invariant [bounds] 0 <= $i + 1 && $i + 1 <= len(jobs) && same("mem(*PipelineJob)") && all(jobs[:$i+1], idNeq, jobToRemove)
 
@@ -466,6 +470,7 @@ package prunner
 //@ ghost $logsRemoveFailed array Bool
 // every real UUID is recovered from its string form (uuid.FromString(id.String()) == id)
 //@ pure idRoundTrips(id uuid.UUID) bool = uf1(2, uf1(1, id)) == id
+//@ pure liveJob(j *PipelineJob) bool = jobWaiting(j) || jobRunning(j)
 //@ pure jobFinished(j *PipelineJob) bool = !jobWaiting(j) && (j.Completed || j.Canceled)
 //@ pure jobsUntouched() bool = same(PipelineJob.Start) && same(PipelineJob.Canceled) && same(PipelineJob.Completed) && same(PipelineJob.End) && same(PipelineJob.LastError) && same(PipelineJob.sched) && same(PipelineJob.startTimer) && same(PipelineJob.Pipeline) && same(PipelineJob.ID)
 //@ pure liveKept(r *PipelineRunner) bool = forall id uuid.UUID :: old((id in r.jobsByID) && defined(r, r.jobsByID[id].Pipeline) && (jobWaiting(r.jobsByID[id]) || jobRunning(r.jobsByID[id]))) ==> (id in r.jobsByID) && r.jobsByID[id] == old(r.jobsByID[id])
@@ -483,9 +488,10 @@ package prunner
 //@   ensures  [C11.tokens] $wgTokens == old($wgTokens)
 //@   at call Save#1: assert [C11.saveTracked] $wgTokens == old($wgTokens) + 1
 //@   ensures  [C12.keepLive] liveKept(r)
+//@   ensures  [C01.listKeepsLive] forall p string, k int :: old(defined(r, p)) && 0 <= k && k < old(len(r.jobsByPipeline[p])) && old(liveJob(r.jobsByPipeline[p][k])) ==> exists k2 :: 0 <= k2 && k2 < len(r.jobsByPipeline[p]) && r.jobsByPipeline[p][k2] == old(r.jobsByPipeline[p][k])
 //@   ensures  [C12.logsKept] forall id uuid.UUID :: (id in r.jobsByID) && idRoundTrips(id) ==> $logsRemoved[uf1(1, id)] == old($logsRemoved[uf1(1, id)])
 //@   ensures  [C12.waitLists] sameExcept("map(map[string][]*PipelineJob)", r.jobsByPipeline)
-//@   modifies map(map[uuid.UUID]*PipelineJob)@[r.jobsByID], map(map[string][]*PipelineJob)@[r.jobsByPipeline], mem(*PipelineJob), $clock, $logsRemoved, $logsRemoveFailed, $savedData, $wgTokens
+//@   modifies map(map[uuid.UUID]*PipelineJob)@[r.jobsByID], map(map[string][]*PipelineJob)@[r.jobsByPipeline], mem(*PipelineJob), $clock, $logsRemoved, $logsRemoveFailed, $savedData, $wgTokens, $passDom
 //@   loop 1 invariant [ri] RI(r) && r.defs == old(r.defs) && r.jobsByPipeline == old(r.jobsByPipeline) && r.jobsByID == old(r.jobsByID) && jobsUntouched() && liveKept(r) && sameExcept("map(map[string][]*PipelineJob)", r.jobsByPipeline)
 //@   loop 2 invariant [ri] RI(r) && r.defs == old(r.defs) && r.jobsByPipeline == old(r.jobsByPipeline) && r.jobsByID == old(r.jobsByID) && jobsUntouched() && liveKept(r) && sameExcept("map(map[string][]*PipelineJob)", r.jobsByPipeline)
 //@   loop 1 invariant [bases] forall p string :: base(r.jobsByPipeline[p]) == old(base(r.jobsByPipeline[p])) && off(r.jobsByPipeline[p]) == old(off(r.jobsByPipeline[p]))
@@ -507,9 +513,11 @@ package prunner
 //@   at call Remove#1: assert [C12.whyNow] jobFinished(job) && defined(r, job.Pipeline) && $passDom[job.ID] ==> (retCount(r, job) > 0 && i >= retCount(r, job)) || (retPeriod(r, job) > 0 && $clock - job.Created > retPeriod(r, job))
 //@   loop 1 invariant [C11.noNew] forall id uuid.UUID :: (id in r.jobsByID) ==> old(id in r.jobsByID) && r.jobsByID[id] == old(r.jobsByID[id])
 //@   loop 2 invariant [C11.noNew] forall id uuid.UUID :: (id in r.jobsByID) ==> old(id in r.jobsByID) && r.jobsByID[id] == old(r.jobsByID[id])
+//@   loop 1 invariant [C01.listKeepsLive] forall p string, k int :: old(defined(r, p)) && 0 <= k && k < old(len(r.jobsByPipeline[p])) && old(liveJob(r.jobsByPipeline[p][k])) ==> exists k2 :: 0 <= k2 && k2 < len(r.jobsByPipeline[p]) && r.jobsByPipeline[p][k2] == old(r.jobsByPipeline[p][k])
+//@   loop 2 invariant [C01.listKeepsLive] forall p string, k int :: old(defined(r, p)) && 0 <= k && k < old(len(r.jobsByPipeline[p])) && old(liveJob(r.jobsByPipeline[p][k])) ==> exists k2 :: 0 <= k2 && k2 < len(r.jobsByPipeline[p]) && r.jobsByPipeline[p][k2] == old(r.jobsByPipeline[p][k])
 //@   loop 1 invariant [clock] $clock >= old($clock)
 //@   loop 2 invariant [distinct] distinctElems(sortedJobsInPipeline)
-//@   loop 2 invariant [sorted] all(sortedJobsInPipeline, nonNil) && all(sortedJobsInPipeline, registered, r) && fresh(base(sortedJobsInPipeline)) && 0 <= $i + 1 && $i + 1 <= len(sortedJobsInPipeline)
+//@   loop 2 invariant [sorted] all(sortedJobsInPipeline, nonNil) && all(sortedJobsInPipeline, regWeak, r) && (forall k :: $i < k && k < len(sortedJobsInPipeline) ==> registered(sortedJobsInPipeline[k], r)) && fresh(base(sortedJobsInPipeline)) && 0 <= $i + 1 && $i + 1 <= len(sortedJobsInPipeline)
 //@   loop 3 invariant [ri] RI(r) && r.defs == old(r.defs) && jobsUntouched() && liveKept(r) && sameExcept("map(map[string][]*PipelineJob)", old(r.jobsByPipeline)) && $held == 2 && fresh(data) && fresh(base(data.Jobs)) && wf(data.Jobs) && snapshotFaithful(r, data) && same("jobTask.*") && same(PipelineJob.Tasks) && same(PipelineJob.Variables) && same(PipelineJob.User) && same(PipelineJob.Created)
 //@   loop 4 invariant [ri] RI(r) && r.defs == old(r.defs) && jobsUntouched() && liveKept(r) && sameExcept("map(map[string][]*PipelineJob)", old(r.jobsByPipeline)) && $held == 2 && fresh(data) && fresh(base(data.Jobs)) && wf(data.Jobs) && snapshotFaithful(r, data) && same("jobTask.*") && same(PipelineJob.Tasks) && same(PipelineJob.Variables) && same(PipelineJob.User) && same(PipelineJob.Created) && 0 <= $i + 1 && $i + 1 <= len(tasks) && fresh(base(tasks)) && off(tasks) == 0 && len(tasks) == len(job.Tasks) && job != nil && r.jobsByID[job.ID] == job && (job.ID in r.jobsByID) && base(tasks) != base(data.Jobs) && forall k :: 0 <= k && k <= $i ==> persistedTaskOf(tasks[k], job.Tasks[k])
 
@@ -551,7 +559,7 @@ package prunner
 //@   lockmode none
 //@   ensures  [T] Tjobs()
 //@   ensures  [gate] old(r.isShuttingDown) ==> r.isShuttingDown
-//@   modifies map(map[uuid.UUID]*PipelineJob), map(map[string][]*PipelineJob), mem(*PipelineJob), $clock, $logsRemoved, $logsRemoveFailed, $savedData, $wgWaited, $wgTokens
+//@   modifies map(map[uuid.UUID]*PipelineJob), map(map[string][]*PipelineJob), mem(*PipelineJob), $clock, $logsRemoved, $logsRemoveFailed, $savedData, $wgWaited, $wgTokens, $passDom
 //@   at call (*PipelineRunner).SaveToStore#1: assert [C11.finalSave] $wgWaited
 
 //@ func buildJobFromPersistedJob
@@ -618,7 +626,7 @@ package prunner
 // ---------------------------------------------------------------------------------------
 // Mapping of obligations to the fixed property ids (glob patterns on obligation names)
 //
-//@ property C01: prunner.(*PipelineJob).isRunning/ensures* prunner.(*PipelineRunner).runningJobsCount/ensures* prunner.(*PipelineRunner).runningJobsCount/loop* prunner.*/ensures[C01.*] prunner.*/call-pre[(*PipelineRunner).startJob.slotFree]* prunner.*/call-pre[(*PipelineRunner).startJob.notStarted]* prunner.*/call-pre[(*PipelineRunner).startJob.offList]* prunner.*/ensures[T] prunner.*/loop*/inv-*[T] prunner.*/monitor[RI] prunner.*/ensures[ri] prunner.*/call-pre[*.ri]* prunner.*/loop*/inv-*[ri] prunner.*/assert[C01.*] prunner.*/assert[cnt*] lemma/cntFrame* prunner/writers[PipelineJob.Start] prunner/writers[PipelineJob.Completed] prunner/writers[PipelineJob.Canceled] prunner.*/call-pre[(*PipelineRunner).startJob$1.token]* prunner.(*PipelineRunner).startJobsOnWaitList/* prunner.(*PipelineRunner).startJob/* prunner.(*PipelineRunner).cancelJobInternal/* prunner.removeJobFromWaitList/* prunner.*/safety prunner.*/guarantee[T] prunner.*/ensures[C12.keepLive]
+//@ property C01: prunner.(*PipelineJob).isRunning/ensures* prunner.(*PipelineRunner).runningJobsCount/ensures* prunner.(*PipelineRunner).runningJobsCount/loop* prunner.*/ensures[C01.*] prunner.*/call-pre[(*PipelineRunner).startJob.slotFree]* prunner.*/call-pre[(*PipelineRunner).startJob.notStarted]* prunner.*/call-pre[(*PipelineRunner).startJob.offList]* prunner.*/ensures[T] prunner.*/loop*/inv-*[T] prunner.*/monitor[RI] prunner.*/ensures[ri] prunner.*/call-pre[*.ri]* prunner.*/loop*/inv-*[ri] prunner.*/assert[C01.*] prunner.*/assert[cnt*] lemma/cntFrame* prunner/writers[PipelineJob.Start] prunner/writers[PipelineJob.Completed] prunner/writers[PipelineJob.Canceled] prunner.*/call-pre[(*PipelineRunner).startJob$1.token]* prunner.(*PipelineRunner).startJobsOnWaitList/* prunner.(*PipelineRunner).startJob/* prunner.(*PipelineRunner).cancelJobInternal/* prunner.removeJobFromWaitList/* prunner.*/safety prunner.*/guarantee[T] prunner.*/ensures[C12.keepLive] prunner.(*PipelineRunner).SaveToStore/*[C01.listKeepsLive]
 //@ property C03: prunner.*/ensures[C03.*] prunner.*/monitor[RI] prunner.*/ensures[ri] prunner.*/call-pre[*.ri]* prunner.*/loop*/inv-*[ri] prunner.(*PipelineRunner).startJobsOnWaitList/loop* prunner.(*PipelineRunner).startJob/ensures[skipCanceled] prunner.removeJobFromWaitList/* prunner.*/ensures[C05.offList] prunner.*/ensures[C16.defsOnly] prunner.(*PipelineRunner).startJobsOnWaitList/* prunner.(*PipelineRunner).startJob/* prunner.(*PipelineRunner).cancelJobInternal/* prunner.removeJobFromWaitList/* prunner.*/ensures[C12.keepLive] prunner.(*PipelineRunner).SaveToStore/loop* prunner.*/safety
 //@ property C04: prunner.*/assert[C04.*] prunner.*/ensures[C04.*] prunner.(*PipelineRunner).startJob/ensures[skipCanceled] prunner.*/ensures[T] prunner.(*PipelineJob).markAsCanceled/* prunner.*/call-pre[(*PipelineRunner).startJob.*]* prunner/writers[PipelineJob.Canceled] prunner.*/monitor[RI] prunner.*/guarantee[T] prunner/writers[PipelineJob.cancelRequested]
 //@ property C05: prunner.*/ensures[C05.*] prunner.*/monitor[RI] prunner.*/ensures[ri] prunner.*/call-pre[*.ri]* prunner.*/loop*/inv-*[ri] prunner.removeJobFromWaitList/* prunner.(*PipelineRunner).runningJobsCount/* prunner.*/ensures[C15.reject] prunner.*/ensures[C15.accept] lemma/cntFrame* prunner.*/loop*/inv-*[others] prunner.*/loop*/inv-*[mine] prunner.*/loop*/inv-*[purged] prunner.(*PipelineRunner).startJobsOnWaitList/* prunner.(*PipelineRunner).startJob/* prunner.(*PipelineRunner).cancelJobInternal/* prunner.removeJobFromWaitList/* prunner.*/safety prunner.*/assert[wl*] prunner.*/assert[dist*]
@@ -626,9 +634,9 @@ package prunner
 //@ property C07: prunner.*/ensures[C07.*] prunner.*/call-pre[(*PipelineRunner).startJob.timerDone]* prunner.*/ensures[C03.timerTruth] prunner.*/ensures[C03.progress] prunner.(*PipelineRunner).ScheduleAsync/ensures[C05.replace] prunner.(*PipelineRunner).startJob/ensures[skipCanceled] prunner.(*PipelineRunner).resolveDequeueJobAction/ensures* prunner/writers[PipelineJob.startTimer] prunner/writers[PipelineJob.StartDelay] prunner.*/monitor[RI] prunner.*/ensures[ri] prunner.*/call-pre[*.ri]* prunner/writers[PipelineJob.Created] prunner/writers[PipelineJob.Start]
 //@ property C10: prunner.*/ensures[C10.*] prunner.(*PipelineRunner).initialLoadFromStore/loop* prunner.buildJobFromPersistedJob/* helper.*/ensures* store/globalinit[json] store.(*JsonDataStore).Load/ensures[C09.load] prunner.*/assert[C10.*] prunner.(*PipelineJob).isRunning/ensures* prunner.(*PipelineRunner).SaveToStore/loop3/* prunner.(*PipelineRunner).SaveToStore/loop4/* lemma/cntZero* prunner.(*PipelineRunner).initialLoadFromStore/ensures* store.(*JsonDataStore).Save/*
 //@ property C11: prunner.*/ensures[C11.*] prunner.*/assert[C11.*] prunner.(*PipelineRunner).Shutdown/loop* prunner.(*PipelineRunner).Shutdown/monitor[RI] prunner.(*PipelineRunner).Shutdown/ensures[T] prunner.(*PipelineRunner).Shutdown$1/* prunner/writers[PipelineRunner.isShuttingDown] prunner.*/guarantee[gate] prunner.(*PipelineRunner).Shutdown/guarantee[T] prunner/interference[captured] prunner.(*PipelineRunner).Shutdown$1/frame* prunner.*/guarantee[noStart] prunner.*/guarantee[noNew] prunner.*/monitor[RI] prunner.*/ensures[ri] prunner.*/call-pre[*.ri]* prunner.(*PipelineRunner).startJobsOnWaitList/*[C11.*] prunner.(*PipelineRunner).SaveToStore/loop*[C11.noNew]
-//@ property C12: prunner.*/ensures[C12.*] prunner.(*PipelineRunner).SaveToStore/* prunner.removeJobFromList/* prunner.byCreationTimeDesc/ensures* prunner.*/assert[dist*] prunner.*/monitor[RI] prunner.(*PipelineRunner).determineIfJobShouldBeRemoved/* prunner.*/assert[wl*] prunner.(*PipelineRunner).initialLoadFromStore/*[C10.noLoss]
+//@ property C12: prunner.*/ensures[C12.*] prunner.(*PipelineRunner).SaveToStore/* prunner.removeJobFromList/* prunner.byCreationTimeDesc/ensures* prunner.*/assert[dist*] prunner.*/monitor[RI] prunner.(*PipelineRunner).determineIfJobShouldBeRemoved/* prunner.*/assert[wl*] prunner.(*PipelineRunner).initialLoadFromStore/*[C10.noLoss] prunner.(*PipelineRunner).SaveToStore/*[C01.listKeepsLive]
 //@ property C13: prunner.*/lock[read] prunner.*/lock[write] prunner.*/lockproto[*] prunner.*/call-pre[*.lockmode]* prunner.*/call-pre[*.guard]* prunner.*/call-pre[*.empty]* prunner.*/ensures[unpublished] prunner/interference[captured] prunner.*/guarantee[*]
-//@ property C15: prunner.*/ensures[C15.*] prunner.(*PipelineRunner).resolveScheduleAction/ensures[range] prunner.(*PipelineRunner).isRunning/loop* prunner.(*PipelineRunner).ReadJob/* prunner.(*PipelineRunner).IterateJobs/ensures* prunner.(*PipelineRunner).ListPipelines/ensures* prunner.(*PipelineRunner).ListPipelines/loop* prunner.(*PipelineJob).isRunning/ensures* prunner.*/monitor[RI] prunner.*/ensures[ri] prunner.*/call-pre[*.ri]* prunner/writers[PipelineJob.End] prunner/writers[PipelineJob.Created] prunner/writers[PipelineJob.Start]
+//@ property C15: prunner.*/ensures[C15.*] prunner.(*PipelineRunner).resolveScheduleAction/ensures[range] prunner.(*PipelineRunner).isRunning/loop* prunner.(*PipelineRunner).ReadJob/* prunner.(*PipelineRunner).IterateJobs/ensures* prunner.(*PipelineRunner).ListPipelines/ensures* prunner.(*PipelineRunner).ListPipelines/loop* prunner.(*PipelineJob).isRunning/ensures* prunner.*/monitor[RI] prunner.*/ensures[ri] prunner.*/call-pre[*.ri]* prunner/writers[PipelineJob.End] prunner/writers[PipelineJob.Created] prunner/writers[PipelineJob.Start] prunner.(*PipelineRunner).SaveToStore/*[C01.listKeepsLive]
 //@ property C08: prunner.*/assert[C08.*] prunner.(*PipelineRunner).JobCompleted/ensures[C04.verdict] prunner.*/assert[C04.cancelMeansError] prunner.(jobTasks).ByName/*
 //@ property C16: prunner.*/ensures[C16.*] prunner.*/ensures[defs] prunner.(*PipelineRunner).resolveDequeueJobAction/ensures[C03.dequeueDecision] prunner/writers[PipelineJob.Tasks] prunner/writers[PipelineJob.Env] prunner/writers[PipelineJob.Variables] prunner/writers[PipelineJob.StartDelay] prunner/writers[PipelineRunner.defs] prunner.*/call-pre[(*PipelineRunner).startJob.timerDone]* prunner.buildJobTasks/* prunner.toStatus/ensures* prunner.buildPipelineGraph/assert[C02.stages] prunner.buildPipelineGraph/loop*
 //@ property C02: prunner.*/call-pre[(*PipelineRunner).startJob.notStarted]* prunner/writers[PipelineJob.Start] prunner.(*PipelineRunner).startJob/ensures[graphError] prunner.(*PipelineRunner).startJob/ensures[T] prunner.*/assert[C01.order] prunner.*/assert[C04.cancelMeansError] prunner.*/call-pre[(*PipelineRunner).startJob.offList]* prunner.(*PipelineRunner).startJobsOnWaitList/* prunner.buildPipelineGraph/*
